@@ -36,6 +36,8 @@ class GhostFS:
                 hit = on_hit(kind, content)
                 if z3.eq(w, pt):
                     r = hit
+                elif it.must(w != pt):
+                    continue  # provably a different file (distinctness preconditions)
                 else:
                     r = z3.If(w == pt, hit, r)
             return r
